@@ -48,3 +48,17 @@ def default_lists_have_no_raw_text_element():
     return rec("C09/defaults/no-raw-text-element-allowed", not danger, len(sanitizer.allowed_elements),
                "no HTML raw-text element (script, style, xmp, iframe, noembed, noframes, noscript, plaintext) is on the "
                "default element allow-list", witness=danger or None)
+
+
+@ground("C09")
+def attribute_namespaces_have_prefixes():
+    """token invariant used by the sanitizer contract: the parser produces namespaced attributes only through
+    adjustForeignAttributes, and disallowed_token looks each such namespace up in constants.prefixes"""
+    from html5lib.constants import adjustForeignAttributes, prefixes
+    bad = [q for q, (p, l, ns) in adjustForeignAttributes.items() if ns not in prefixes]
+    nss = sorted({ns for (_, _, ns) in adjustForeignAttributes.values()})
+    from contracts.sanitizer import ATTR_NAMESPACES
+    ok = not bad and sorted(ATTR_NAMESPACES) == nss
+    return rec("C09/tables/attribute-namespaces-have-prefixes", ok, len(adjustForeignAttributes),
+               "every namespace adjustForeignAttributes can give an attribute is a key of constants.prefixes, and these are "
+               "exactly the namespaces the sanitizer contract quantifies over", witness=bad or (None if ok else nss))
